@@ -2606,7 +2606,10 @@ class op(object):
         if not variables: 
             raise TypeError('lp must have at least one variable')
         x = variables[0]
-        c = lp1.objective._linear._coeff[x]
+        if x in lp1.objective._linear._coeff:
+            c = lp1.objective._linear._coeff[x]
+        else:
+            c = matrix(0.0, (1,len(x)))
         if _isspmatrix(c): c = matrix(c, tc='d')
 
         inequalities = lp1._inequalities
